@@ -222,8 +222,8 @@ static inline int myth_wake_one_from_queue(myth_sleep_queue_t * q,
     callback(arg);
   }
   /* put the thread to wake up in run queue */
-  myth_queue_push(&env->runnable_q, to_wake);
   MYTH_VERIF_POINT(MYTH_VP_WAKE_PUSH, q, to_wake, 0);
+  myth_queue_push(&env->runnable_q, to_wake);
   return failed;
 }
 
@@ -305,8 +305,8 @@ static inline int myth_wake_many_from_queue(myth_sleep_queue_t * q,
   for (i = 0; i < n; i++) {
     assert(to_wake);
     myth_thread_t next = to_wake->next;
-    myth_queue_push(&env->runnable_q, to_wake);
     MYTH_VERIF_POINT(MYTH_VP_WAKE_PUSH, q, to_wake, 0);
+    myth_queue_push(&env->runnable_q, to_wake);
     to_wake = next;
   }
   return n;
@@ -329,8 +329,8 @@ static inline int myth_wake_if_any_from_queue(myth_sleep_queue_t * q,
     callback(arg);
   }
   /* put the thread that just woke up to the run queue */
-  myth_queue_push(&env->runnable_q, to_wake);
   MYTH_VERIF_POINT(MYTH_VP_WAKE_PUSH, q, to_wake, 0);
+  myth_queue_push(&env->runnable_q, to_wake);
   return 1;			/* I woke up one */
 }
 
@@ -424,8 +424,8 @@ static inline int myth_wake_many_from_stack(myth_sleep_stack_t * s,
   for (i = 0; i < n; i++) {
     assert(to_wake);
     myth_thread_t next = to_wake->next;
-    myth_queue_push(&env->runnable_q, to_wake);
     MYTH_VERIF_POINT(MYTH_VP_WAKE_PUSH, s, to_wake, 0);
+    myth_queue_push(&env->runnable_q, to_wake);
     to_wake = next;
   }
   return n;
@@ -1167,8 +1167,8 @@ static inline int myth_uncond_signal_body(myth_uncond_t * u) {
   to_wake->env = env;
   u->th = 0;
   MYTH_VERIF_POINT(MYTH_VP_UC_SIG_CLEAR, u, to_wake, 0);
-  myth_queue_push(&env->runnable_q, to_wake);
   MYTH_VERIF_POINT(MYTH_VP_WAKE_PUSH, u, to_wake, 0);
+  myth_queue_push(&env->runnable_q, to_wake);
   return 0;
 }
 
